@@ -156,7 +156,7 @@ func c14Render(t ruleTriple) (text, renderedVal string) {
 func init() {
 	core.Register(&core.Prop{
 		ID: "C14",
-		Rule: "rule lists of 1-8 (key, value, message) triples over all 34 rule keys rendered with GenValidKV, joined with RM.Set (several field names, repeated Set), read back with RM.Get, split with ValidNamesSplit and parsed with ParseValidNameKV; values/messages over ASCII, CJK, = ~ / ( ) | and single-quoted segments containing commas (documented restrictions: commas only inside quotes, no | inside a value, message non-empty; values in raw form =v and ==v included); " +
+		Rule: "[the builder is also called twice with a kept argument slice (args...)] rule lists of 1-8 (key, value, message) triples over all 34 rule keys rendered with GenValidKV, joined with RM.Set (several field names, repeated Set), read back with RM.Get, split with ValidNamesSplit and parsed with ParseValidNameKV; values/messages over ASCII, CJK, = ~ / ( ) | and single-quoted segments containing commas (documented restrictions: commas only inside quotes, no | inside a value, message non-empty; values in raw form =v and ==v included); " +
 			"plus the no-loss law Join(ValidNamesSplit(s)) in {s, s minus one trailing separator} and fast-path/slow-path agreement on arbitrary strings. distinct = distinct rule text / distinct string; non-trivial = list with >=2 rules or a quote, string containing a separator or quote",
 		Shards: func(t core.Tier) int { return 16 },
 		Run:    runC14,
